@@ -17,6 +17,15 @@ class AtomicBase : public AtomicWait<T> {
   using Base::is_always_lock_free;
   using Base::is_lock_free;
 
+  T operator=(T desired) noexcept {
+    _value = desired;
+    return desired;
+  }
+  T operator=(T desired) volatile noexcept {
+    _value = desired;
+    return desired;
+  }
+
   void store(T desired, std::memory_order) noexcept {
     _value = desired;
   }
@@ -90,6 +99,7 @@ class AtomicFloatingBase : public AtomicBase<T> {
 
  public:
   using Base::Base;
+  using Base::operator=;
 };
 
 template <typename T>
@@ -98,6 +108,7 @@ class AtomicFloatingBase<T, true> : public AtomicBase<T> {
 
  public:
   using Base::Base;
+  using Base::operator=;
 
   T fetch_add(T arg, std::memory_order) noexcept {
     auto val = _value;
@@ -145,6 +156,7 @@ class AtomicIntegralBase : public AtomicFloatingBase<T> {
 
  public:
   using Base::Base;
+  using Base::operator=;
 };
 
 template <typename T>
@@ -153,6 +165,7 @@ class AtomicIntegralBase<T, true> : public AtomicFloatingBase<T, true> {
 
  public:
   using Base::Base;
+  using Base::operator=;
 
   T fetch_and(T arg, std::memory_order) noexcept {
     auto val = _value;
@@ -246,6 +259,7 @@ class Atomic : public AtomicIntegralBase<T> {
 
  public:
   using Base::Base;
+  using Base::operator=;
 };
 
 template <typename U>
@@ -254,6 +268,7 @@ class Atomic<U*> : public AtomicBase<U*> {
 
  public:
   using Base::Base;
+  using Base::operator=;
 
   U* fetch_add(std::ptrdiff_t arg, std::memory_order) noexcept {
     auto val = _value;
